@@ -1,6 +1,7 @@
 """C07 — supervisor: real ESME.start()/stop() on the virtual-time loop against a scripted SMSC,
 compared with the Lean supervisor model; clean-shutdown predicates on the observed run."""
 import asyncio
+import json
 from vlib import Case
 from sim.simlib import Sim, pdu
 
@@ -78,7 +79,7 @@ def model_outcomes(script):
     return res
 
 
-def run_script(script, stop_at, mode, bo, unbind_answer, horizon):
+def run_script(script, stop_at, mode, bo, unbind_answer, horizon, traffic=()):
     from aiosmpplib.state import BindMode
     from aiosmpplib.retrytimer import SimpleExponentialBackoff
     s = Sim(enquire_link_interval=I, socket_timeout=S, bind_mode=getattr(BindMode, mode),
@@ -132,6 +133,14 @@ def run_script(script, stop_at, mode, bo, unbind_answer, horizon):
                 return ('resp', 0)
             return ('resp', 0)
         s.smsc.bind = bind
+        # the application goes on queueing messages whatever the link does (sent, discarded in receiver mode, or handed to
+        # send_error): none of it may change what the supervisor does
+        from aiosmpplib.protocol import SubmitSm
+        for t_q, kind in traffic:
+            m = {'plain': lambda: SubmitSm(short_message='hello', log_id='t'),
+                 'nocodec': lambda: SubmitSm(short_message='hello', encoding='nosuchcodec', log_id='t'),
+                 'long': lambda: SubmitSm(short_message='x' * 400, auto_message_payload=False, log_id='t')}[kind]()
+            s.at(t_q, s.enqueue, m)
         s.smsc.unbind_answer = unbind_answer
         s.smsc.close_on_eof = unbind_answer
         if stop_at is not None and stop_at > 0:
@@ -186,16 +195,20 @@ def case_of(rng):
     if stop_at is not None and rng.random() < 0.1:
         stop_at = rng.choice((0.0007, 0))         # 0: stop() before start() takes its first step
     unbind_answer = rng.random() < 0.8
-    return make_case(script, stop_at, mode, bo, unbind_answer)
+    traffic = []
+    if rng.random() < 0.5:
+        for _ in range(rng.randrange(1, 5)):
+            traffic.append((round(rng.uniform(0.0, max(total, 1.0)), 3) + 0.0003, rng.choice(('plain', 'plain', 'nocodec', 'long'))))
+    return make_case(script, stop_at, mode, bo, unbind_answer, sorted(traffic))
 
 
-def make_case(script, stop_at, mode, bo, unbind_answer):
+def make_case(script, stop_at, mode, bo, unbind_answer, traffic=()):
     cap = bo[0] * 2 ** bo[1] / 1000.0
     horizon = (stop_at if stop_at is not None else 0) + 400.0
     if stop_at is None:
         horizon = sum({'hang': S, 'silent': S}.get(o[0], 0.0) + (o[1] + o[2] + GRACE if o[0] == 'session' else 0.0) + cap
                       for o in script) + 1.0
-    res, ev, conns, state = run_script(script, stop_at, mode, bo, unbind_answer, horizon)
+    res, ev, conns, state = run_script(script, stop_at, mode, bo, unbind_answer, horizon, traffic)
     connects = [e[0] for e in ev if e[1] in ('connect-begin',)]
     begun = {e[2] for e in ev if e[1] == 'connect-begin'}
     connects = sorted([e[0] for e in ev if e[1] == 'connect-begin'] + [e[0] for e in ev if e[1] == 'connect' and e[2] not in begun])
@@ -260,8 +273,10 @@ def make_case(script, stop_at, mode, bo, unbind_answer):
     # model order: connect, bound, unbind, returned per cycle — same as time order with the tie-break above,
     # except that a connect begun before a slow set-up carries the begin time
     real = 'ok ' + ' '.join('%s@%d' % (k, ms(t)) for t, _, k in evs)
-    sig = ('sup', mode, bo, tuple(sorted({o[0] for o in script})), stopped_where, unbind_answer, stop_at is None)
-    inp = {'op': 'sup', 'script': script, 'stop': stop_at, 'mode': mode, 'bo': bo, 'unbind_answer': unbind_answer}
+    sig = ('sup', mode, bo, tuple(sorted({o[0] for o in script})), stopped_where, unbind_answer, stop_at is None,
+           tuple(sorted({k for _t, k in traffic})))
+    inp = {'op': 'sup', 'script': script, 'stop': stop_at, 'mode': mode, 'bo': bo, 'unbind_answer': unbind_answer,
+           'traffic': [list(x) for x in traffic]}
     if stop_at is None:
         # the script is finite: the model stops printing when it is exhausted, the real run goes on refusing
         n = len(script)
@@ -279,6 +294,12 @@ def make_case(script, stop_at, mode, bo, unbind_answer):
         line += ' ' + ' '.join(['cf:0'] * min(6000, int(stop_at / (bo[0] / 1000.0)) + 20))
     if silent_unbind and fail is None and lat > I + GRACE + 0.001:
         fail = 'wind-down after stop() took %.3f s, more than enquire_link_interval + grace' % lat
+    if traffic:
+        # a message queued while a session winds down wakes the Sender, which then ends by itself instead of being cancelled
+        # after the grace period: the cycle is shorter than the model's (whose task-ending time is a parameter).  Runs with
+        # application traffic are therefore judged by the predicates alone (never returns without stop(), bounded return after
+        # stop(), state and connections closed, back-off law)
+        line = real = '# sup-with-traffic ' + json.dumps(inp)[:300]
     return Case(line, real, sig, fail, inp)
 
 
@@ -289,7 +310,8 @@ def generate(rng, tier):
 
 
 def replay(inp):
-    return make_case([tuple(o) for o in inp['script']], inp['stop'], inp['mode'], tuple(inp['bo']), inp['unbind_answer'])
+    return make_case([tuple(o) for o in inp['script']], inp['stop'], inp['mode'], tuple(inp['bo']), inp['unbind_answer'],
+                     [tuple(x) for x in inp.get('traffic', [])])
 
 
 def classify(case):
